@@ -79,9 +79,17 @@ RECIPES = [
 ]
 
 
+SMALL_SCALES = False     # set by gen_family(small_scales=True): prefixes within 10^±6 (expression families raise units
+                         # to the 9th power and pint accumulates scales in doubles: 1e-324 underflows)
+
+
 def _decorate(rng, e, p=0.5):
     if rng.random() < p:
-        e['prefix'] = rng.choice(list(SI_PREFIX)) if rng.random() < 0.75 else str(rng.randint(-12, 12))
+        if SMALL_SCALES:
+            e['prefix'] = rng.choice([k for k, v in SI_PREFIX.items() if abs(v) <= 6]) if rng.random() < 0.75 \
+                else str(rng.randint(-6, 6))
+        else:
+            e['prefix'] = rng.choice(list(SI_PREFIX)) if rng.random() < 0.75 else str(rng.randint(-12, 12))
     if rng.random() < 0.35:
         e['multiplier'] = rng.choice(MULTIPLIERS)
     if rng.random() < 0.04:
@@ -89,7 +97,17 @@ def _decorate(rng, e, p=0.5):
     return e
 
 
-def gen_family(rng, n_units=None, n_stores=None, allow_bad=False, mix_dimless=False, recipes=None, with_base=None):
+def gen_family(rng, n_units=None, n_stores=None, allow_bad=False, mix_dimless=False, recipes=None, with_base=None,
+               small_scales=False):
+    global SMALL_SCALES
+    SMALL_SCALES = small_scales
+    try:
+        return _gen_family(rng, n_units, n_stores, allow_bad, mix_dimless, recipes, with_base)
+    finally:
+        SMALL_SCALES = False
+
+
+def _gen_family(rng, n_units=None, n_stores=None, allow_bad=False, mix_dimless=False, recipes=None, with_base=None):
     """Units come in clusters of equal dimension (different spellings, prefixes, multipliers, powers of one another),
     so that most queried pairs are convertible with a factor different from one."""
     ns = n_stores or rng.choice([1, 1, 2, 2, 3])
@@ -264,7 +282,7 @@ def parse_base_format(text):
             else:
                 e = Fraction(1)
                 if i + 2 < len(toks) and toks[i + 1] == '^':
-                    e = Fraction(toks[i + 2]).limit_denominator(64)
+                    e = Fraction(toks[i + 2]).limit_denominator(10 ** 6)
                     i += 2
                 out[t] = out.get(t, 0) + sign * e
             i += 1
@@ -327,6 +345,12 @@ def sem_of(sem, u):
         scale *= mpmath.power(x.scale, mpmath.mpf(q.numerator) / q.denominator)
         dims = dim_add(dims, x.dims, q)
     return Sem(scale, dims)
+
+
+def dims_close(a, b, tol=2e-6):
+    """exponent dicts equal up to the 6 significant digits pint prints for non-integer exponents"""
+    keys = set(a) | set(b)
+    return all(abs(float(a.get(k, 0)) - float(b.get(k, 0))) <= tol * max(1.0, abs(float(a.get(k, 0)))) for k in keys)
 
 
 def physical_dims(d):
